@@ -108,6 +108,20 @@ CACHING_DECORATORS = {
 INT_STR_LIMIT = 10 ** 4300  # sys.get_int_max_str_digits() default
 
 
+def bytes_to_text(interp, v, state, node):
+    """str() of a bytes value (explicitly or through '{}' / '%s' / an
+    f-string field without !r) raises BytesWarning when the interpreter
+    runs with -bb.  Only modelled in that reading of the program."""
+    if not _i().BYTES_WARNINGS:
+        return
+    t = {'bytes'} if isinstance(v, (bytes, bytearray)) else (
+        (state.kn.type_of(v) or T.typeof(v)) if isinstance(v, Sym)
+        else None)
+    if t is not None and t <= {'bytes', 'bytearray'}:
+        interp.raise_pending(state, E('builtins.BytesWarning'), node,
+                             'str() on a bytes instance (python -bb)')
+
+
 def int_to_text(interp, v, state, node, what):
     """Converting an int to decimal text (str, repr, '{}', '%s', '%d',
     f-string) raises ValueError beyond 4300 digits (CPython >= 3.11).  The
@@ -148,7 +162,7 @@ def _format_fields(template):
                 key = int(key)
             plain = field == str(key) or field == ''
             binary = bool(spec) and spec[-1:] in 'xXob' and conv is None
-            out.append((key, plain and not binary))
+            out.append((key, plain and not binary, conv))
     except ValueError:
         return None
     return out
@@ -158,15 +172,17 @@ def format_conversions(interp, template, args, kwargs, state, node):
     fields = _format_fields(template)
     if fields is None:
         return
-    for key, decimal_text in fields:
-        if not decimal_text:
-            continue
+    for key, decimal_text, conv in fields:
         v = None
         if isinstance(key, int) and key < len(args):
             v = args[key]
         elif isinstance(key, str):
             v = kwargs.get(key)
-        if v is not None:
+        if conv in ('r', 'a'):
+            repr_of_caught(interp, v, node)
+        elif v is not None:
+            bytes_to_text(interp, v, state, node)
+        if v is not None and decimal_text:
             int_to_text(interp, v, state, node, 'str.format')
 
 
@@ -178,6 +194,19 @@ def percent_conversions(interp, template, operand, state, node):
     for c, v in zip(specs, vals):
         if c in 'sdirau':
             int_to_text(interp, v, state, node, "'%%%s' formatting" % c)
+        if c in 'ra':
+            repr_of_caught(interp, v, node)
+        if c == 's':
+            bytes_to_text(interp, v, state, node)
+
+
+def repr_of_caught(interp, v, node):
+    """repr() of a caught exception (its message re-quoted and
+    re-escaped): recorded as an effect; inside a recursive decoder the text
+    grows by a factor with every nesting level."""
+    if isinstance(v, Sym) and v.op == 'caught':
+        interp.effect('repr-of-caught', v, interp.cur_func.short
+                      if interp.cur_func else None, node)
 
 
 def decorator_path(prog, mi, d):
@@ -209,10 +238,50 @@ def decorator_kind(prog, mi, d):
         return 'transparent'
     if path in CACHING_DECORATORS:
         return 'caching'
+    from .model import FuncInfo as _FI
+    if isinstance(tgt, _FI) and _returns_its_argument(
+            tgt.node, factory=isinstance(d, _ast.Call)):
+        # a decorator of the package that hands the function back (it may
+        # register it somewhere first): calls run the function itself
+        return 'transparent'
     if isinstance(node, _ast.Attribute) and \
             node.attr in ('setter', 'getter', 'deleter'):
         return 'transparent'
     return 'unknown'
+
+
+def _returns_its_argument(fnode, factory=False):
+    """Does the function return its first parameter on every return
+    (factory: does it return a nested function that does)?"""
+    import ast as _ast
+    if not isinstance(fnode, _ast.FunctionDef):
+        return False
+
+    def own_returns(fn):
+        out = []
+        stack = list(fn.body)
+        while stack:
+            n = stack.pop()
+            if isinstance(n, (_ast.FunctionDef, _ast.AsyncFunctionDef,
+                              _ast.Lambda, _ast.ClassDef)):
+                continue
+            if isinstance(n, _ast.Return):
+                out.append(n)
+            stack.extend(_ast.iter_child_nodes(n))
+        return out
+    rets = own_returns(fnode)
+    if not rets:
+        return False
+    if not factory:
+        params = fnode.args.posonlyargs + fnode.args.args
+        if not params:
+            return False
+        return all(isinstance(r.value, _ast.Name) and
+                   r.value.id == params[0].arg for r in rets)
+    inner = {n.name: n for n in fnode.body
+             if isinstance(n, _ast.FunctionDef)}
+    return all(isinstance(r.value, _ast.Name) and r.value.id in inner and
+               _returns_its_argument(inner[r.value.id]) for r in rets)
 
 
 def wrappers(prog, funcs):
@@ -455,6 +524,8 @@ def dispatch_call(interp, callee, args, kwargs, state, node):
 
 def generic_ext_call(interp, callee, args, kwargs, state, node):
     path = callee.path
+    if path in ('builtins.repr', 'builtins.ascii') and args:
+        repr_of_caught(interp, args[0], node)
     if _i().exc_name(callee) in _i()._EXC_PARENT:
         return Sym('excinst', callee, tuple(_t(a) for a in args))
     for et, why in EXT_RAISES.get(path, ()):
@@ -571,6 +642,8 @@ def _b_isinstance(interp, args, kwargs, state, node):
         # own): an opaque boolean
         return Sym('isinstance_dyn', _t(x), _t(tv))
     names = type_names_of(interp, tv)
+    if isinstance(x, ClassInfo):
+        return bool({'object', 'type', 'builtins.type'} & set(n for n in names if isinstance(n, str)))
     if isinstance(x, Ref):
         o = interp.obj(state, x)
         if o.kind == 'inst':
@@ -586,7 +659,9 @@ def _b_isinstance(interp, args, kwargs, state, node):
         tn = _const_type_name(x)
         return any(n in supertypes(tn) for n in names
                    if isinstance(n, str))
-    if isinstance(x, (ClassInfo, FuncInfo, ModuleInfo)):
+    if isinstance(x, ClassInfo):
+        return bool({'object', 'type', 'builtins.type'} & set(n for n in names if isinstance(n, str)))
+    if isinstance(x, (FuncInfo, ModuleInfo)):
         return 'object' in names
     t = T.typeof(x)
     if t is not None:
@@ -623,6 +698,21 @@ def _b_setattr(interp, args, kwargs, state, node):
         return None
     interp.set_attr(base, name, v, state, node)
     return None
+
+
+def _b_vars(interp, args, kwargs, state, node):
+    """vars(<class of the package>): its namespace in definition order
+    (the implicit string entries included; the two slot descriptors Python
+    adds are not types and carry none of the library's attributes)."""
+    if len(args) == 1 and isinstance(args[0], ClassInfo):
+        ci = args[0]
+        items = [('__module__', ci.module.name),
+                 ('__qualname__', ci.qualname[len(ci.module.name) + 1:])]
+        for nm in ci.order:
+            items.append((nm, interp.class_attr_own(ci, nm)))
+        return interp.alloc(state, _i().DictObj(
+            items, origin=interp.site(node)))
+    return Sym('extcall', 'builtins.vars', tuple(_t(a) for a in args), ())
 
 
 def _b_hasattr(interp, args, kwargs, state, node):
@@ -672,6 +762,7 @@ def _b_str(interp, args, kwargs, state, node):
         return str(x)
     if len(args) == 1:
         int_to_text(interp, x, state, node, 'str()')
+        bytes_to_text(interp, x, state, node)
     if (len(args) >= 2 or 'encoding' in kwargs or 'errors' in kwargs) and \
             isinstance(x, Sym):
         # str(b, encoding[, errors]) is b.decode(encoding[, errors])
@@ -1191,7 +1282,13 @@ def _sys_intern(interp, args, kwargs, state, node):
 
 def _b_range(interp, args, kwargs, state, node):
     if all(isinstance(a, int) for a in args):
-        return tuple(range(*args))
+        try:
+            r = range(*args)
+        except (TypeError, ValueError):
+            r = None
+        if r is not None and (r.stop - r.start) // r.step <= 4096:
+            return tuple(r)
+        # a large range is kept as a range (membership is two comparisons)
     return Sym('range', *[_t(a) for a in args])
 
 
@@ -1237,6 +1334,16 @@ def _b_issubclass(interp, args, kwargs, state, node):
     a, b = args
     if isinstance(a, ClassInfo) and isinstance(b, ClassInfo):
         return interp.prog.is_subclass(a, b)
+    Ext = _i().Ext
+    bs = b if isinstance(b, tuple) else (b,)
+    if isinstance(a, (ClassInfo, Ext)) and bs and all(
+            isinstance(x, (ClassInfo, Ext)) for x in bs):
+        # exception classes: the hierarchy used for except matching
+        names = _i()._EXC_PARENT
+        known = lambda c: isinstance(c, ClassInfo) or \
+            _i().exc_name(c) in names
+        if known(a) and all(known(x) for x in bs):
+            return any(interp.exc_matches(a, x) for x in bs)
     return Sym('issubclass', _t(a), _t(b))
 
 
@@ -1580,6 +1687,7 @@ _EXT_CALLS = {
     'builtins.len': _b_len, 'builtins.isinstance': _b_isinstance,
     'builtins.getattr': _b_getattr, 'builtins.setattr': _b_setattr,
     'builtins.hasattr': _b_hasattr, 'builtins.int': _b_int,
+    'builtins.vars': _b_vars,
     'builtins.bool': _b_bool, 'builtins.str': _b_str,
     'builtins.float': _b_float, 'builtins.bytes': _b_bytes,
     'builtins.bytearray': _b_bytearray, 'builtins.sorted': _b_sorted,
@@ -1840,6 +1948,30 @@ def call_container_method(interp, ref, name, args, kwargs, state, node):
                     all(T.is_const(kk) for kk, _ in o.items):
                 v = o.get(k)
                 return dflt if v is _i().ABSENT else v
+            if not o.more and o.items and isinstance(k, Sym) and all(
+                    T.is_const(kk) and not isinstance(kk, Sym)
+                    for kk, _ in o.items) and \
+                    ref.id in interp.static_store:
+                # a module-level dispatch table read with a run-time key:
+                # TABLE.get(k, d) is TABLE[k] when k is a key, d otherwise
+                ck = interp.policy.choose_key(interp, ref, o, k, state)
+                if ck is not None:
+                    v = o.get(ck)
+                    if v is _i().ABSENT:
+                        raise AnalysisError('specialisation key %r not in '
+                                            'table' % (ck,))
+                    state.kn.assume(T.compare('eq', _t(k), ck))
+                    return v
+                if len(o.items) <= 8:
+                    # a small table: a chain of key comparisons
+                    res = dflt
+                    for kk, vv in reversed(o.items):
+                        res = interp.join_value(
+                            T.compare('eq', _t(k), kk), vv, res)
+                    return res
+                absent = Sym('notin', _t(k), ref)
+                return interp.join_value(absent, dflt,
+                                         Sym('tableget', ref, _t(k)))
             return Sym('method', ref, 'get', tuple(_t(a) for a in args))
         if name == 'items' and not o.more:
             return tuple((k, v) for k, v in o.items)
@@ -1849,6 +1981,55 @@ def call_container_method(interp, ref, name, args, kwargs, state, node):
             return tuple(v for _, v in o.items)
         if name == 'copy':
             return interp.alloc(state, DictObj(o.items, o.more))
+        const_keys = not o.more and all(T.is_const(kk) and
+                                        not isinstance(kk, Sym)
+                                        for kk, _ in o.items)
+        if name == 'setdefault' and const_keys and args and \
+                T.is_const(args[0]) and not isinstance(args[0], Sym):
+            cur = o.get(args[0])
+            if cur is not _i().ABSENT:
+                return cur
+            dv = args[1] if len(args) > 1 else None
+            state.store[ref.id] = DictObj(tuple(o.items) + ((args[0], dv),),
+                                          False, o.shared, o.origin)
+            return dv
+        if name == 'clear' and not args:
+            state.store[ref.id] = DictObj((), False, o.shared, o.origin)
+            return None
+        if name == 'pop' and const_keys and args and \
+                T.is_const(args[0]) and not isinstance(args[0], Sym):
+            cur = o.get(args[0])
+            if cur is not _i().ABSENT:
+                state.store[ref.id] = DictObj(
+                    tuple((k, v) for k, v in o.items
+                          if not _i().same_value(k, args[0])),
+                    False, o.shared, o.origin)
+                return cur
+            if len(args) > 1:
+                return args[1]
+            interp.raise_pending(state, E('builtins.KeyError'), node,
+                                 'pop of a missing key', cond=True)
+            raise _i()._NoReturn()
+        if name == 'update' and const_keys and len(args) <= 1:
+            src = None
+            if not args:
+                src = []
+            elif isinstance(args[0], Ref):
+                so = interp.obj(state, args[0])
+                if isinstance(so, DictObj) and not so.more:
+                    src = list(so.items)
+            elif isinstance(args[0], tuple) and all(
+                    isinstance(p_, tuple) and len(p_) == 2
+                    for p_ in args[0]):
+                src = list(args[0])
+            if src is not None and all(
+                    T.is_const(k) and not isinstance(k, Sym)
+                    for k, _ in src):
+                cur = DictObj(o.items, False, o.shared, o.origin)
+                for k, v in src + list(kwargs.items()):
+                    cur = cur.set(k, v)
+                state.store[ref.id] = cur
+                return None
         if name in ('update', 'setdefault', 'pop', 'popitem', 'clear'):
             state.store[ref.id] = DictObj(o.items, True, o.shared, o.origin)
             return Sym('method', ref, name, tuple(_t(a) for a in args))
